@@ -177,6 +177,8 @@ def merged_exact(table, labels, nlabel, scaled):
 def judge_merge(table, labels, nlabel, scaled, pkm):
     """pkm: dict returned by pks_table.pk2dmerge.  Expectation: exact sums over the members of each
     label (labels = the code's own, already judged, labelling); means as exact rationals."""
+    if isinstance(table, FTable):
+        return judge_merge_f(table, labels, nlabel, scaled, pkm)
     ex = merged_exact(table, np.asarray(labels, np.int64), nlabel, scaled)
     num = [e[0] for e in ex]
     den = [e[1] for e in ex]
@@ -202,6 +204,8 @@ def judge_merge(table, labels, nlabel, scaled, pkm):
 
 
 def judge_pk2d(table, glabel, scaled, pk):
+    if isinstance(table, FTable):
+        return judge_pk2d_f(table, glabel, scaled, pk)
     s1, sI, srI, scI, frm = [table.props[k] for k in range(5)]
     n = len(s1)
     problems = []
@@ -231,6 +235,245 @@ def judge_pk2d(table, glabel, scaled, pk):
     if not np.array_equal(np.asarray(pk["spot3d_id"]), np.asarray(glabel)):
         problems.append("pk2d spot3d_id is not the merged-peak label of each 2D peak")
     return problems
+
+
+# ----------------------------------------------------------------------------------
+# general value tables: omega / dty / scale are ARBITRARY finite doubles or floats handed to the code
+# in any dtype / memory layout; the expectation is computed from the exact binary value of every
+# element (a double is an integer times a power of two) with Python integers - no rounding at all.
+
+def exact_ints(a):
+    """a: float array (any float dtype / layout).  Returns (list of Python ints M in logical C order,
+    shift s >= 0) with  a.flat[k] == M[k] / 2**s  exactly."""
+    a = np.asarray(a)
+    a = np.asarray(a, dtype=np.float64).ravel(order="C")       # float32 -> float64 is exact
+    assert np.isfinite(a).all()
+    m, e = np.frexp(a)                                         # a = m * 2**e, 0.5 <= |m| < 1 (0 -> 0, 0)
+    M = np.round(m * 2.0 ** 53).astype(np.int64)               # exact: 53 significant bits
+    e = e.astype(np.int64) - 53
+    nz = M != 0
+    emin = min(int(e[nz].min()), 0) if nz.any() else 0
+    ints = [(int(Mk) << int(ek - emin)) if Mk else 0 for Mk, ek in zip(M, e)]
+    return ints, -emin
+
+
+class FTable(object):
+    """integer property table + per-frame float arrays exactly as they are handed to the code.
+    kind / notes are free text for the evidence; monitor (optional): (monitor array, monitor_ref) from
+    which the dataset route derives scale = monitor_ref / monitor (one IEEE division, repeated here)."""
+
+    def __init__(self, props, omega, dty, scale, kind="", monitor=None):
+        self.props = np.ascontiguousarray(props, dtype=np.int64)
+        self._om, self._dty, self._sc = omega, dty, scale
+        assert omega.shape == dty.shape == scale.shape
+        self.shape = omega.shape
+        self.kind = kind
+        self.monitor = monitor
+        self.om_i, self.om_s = exact_ints(omega)
+        self.dty_i, self.dty_s = exact_ints(dty)
+        self.sc_i, self.sc_s = exact_ints(scale)
+        assert min(self.sc_i) >= 0, "negative scale factors are not a class of the check"
+        self._cache = {}
+
+    def omega(self):
+        return self._om
+
+    def dty(self):
+        return self._dty
+
+    def scale(self):
+        return self._sc
+
+    def flat64(self, which):
+        """logical C-order float64 copy (exact) of one per-frame array"""
+        return np.asarray(np.asarray({"om": self._om, "dty": self._dty, "sc": self._sc}[which]),
+                          dtype=np.float64).ravel(order="C")
+
+
+def merged_exact_f(table, labels, nlabel, scaled):
+    """exact sums per label with Python integers.  Returns dict: num[r] (list of ints per label) and
+    den[r] (int) for the rows r = 0..6 of numbapkmerge, absn[r] = sums of |terms| (rows 4, 5)."""
+    key = (bool(scaled), int(nlabel), hash(np.ascontiguousarray(labels).tobytes()))
+    if key in table._cache:
+        return table._cache[key]
+    s1, sI, srI, scI, frm = [[int(x) for x in table.props[k]] for k in range(5)]
+    lab = [int(x) for x in labels]
+    if scaled:
+        sc, scs = table.sc_i, table.sc_s
+    else:
+        sc, scs = [1] * len(table.sc_i), 0
+    om, dt = table.om_i, table.dty_i
+    num = [[0] * nlabel for r in range(7)]
+    a4 = [0] * nlabel
+    a5 = [0] * nlabel
+    for k in range(len(lab)):
+        j, f = lab[k], frm[k]
+        w = sI[k] * sc[f]
+        num[0][j] += s1[k]
+        num[1][j] += w
+        num[2][j] += srI[k] * sc[f]
+        num[3][j] += scI[k] * sc[f]
+        t4 = om[f] * w
+        t5 = dt[f] * w
+        num[4][j] += t4
+        num[5][j] += t5
+        a4[j] += abs(t4)
+        a5[j] += abs(t5)
+        num[6][j] += 1
+    den = [1, 1 << scs, 1 << scs, 1 << scs, 1 << (scs + table.om_s), 1 << (scs + table.dty_s), 1]
+    out = {"num": num, "den": den, "absn": {2: num[2], 3: num[3], 4: a4, 5: a5}}
+    table._cache = {key: out}
+    return out
+
+
+def judge_merge_f(table, labels, nlabel, scaled, pkm, stats=None):
+    """general-value judge.  Sums: |x - e| <= 1e-9 * sum|terms| + 1e-12.  Means m = N_r / N_1:
+    |x - m| <= 1e-9 * (sum|terms_r| / N_1 + |m|) + 1e-12, i.e. relative to the magnitude of what was
+    summed, not to a possibly cancelled result.  A merged peak whose total weight is exactly 0 (all
+    scale factors 0) has no defined mean: only its pixel count, 2D-peak count and (zero) intensity are
+    judged."""
+    ex = merged_exact_f(table, np.asarray(labels, np.int64), nlabel, scaled)
+    num, den, absn = ex["num"], ex["den"], ex["absn"]
+    tag = "pk2dmerge(%s)" % ("scaled" if scaled else "unscaled")
+    problems = []
+    for k in ("Number_of_pixels", "sum_intensity", "npk2d", "s_raw", "f_raw", "omega", "dty", "spot3d_id"):
+        if k not in pkm:
+            problems.append("pk2dmerge result lacks %r" % k)
+        elif np.asarray(pkm[k]).shape != (nlabel,):
+            problems.append("%s[%s]: shape %s, expected (%d,)" % (tag, k, np.asarray(pkm[k]).shape, nlabel))
+    if problems:
+        return problems
+    if not np.array_equal(np.asarray(pkm["spot3d_id"]), np.arange(nlabel)):
+        problems.append("%s[spot3d_id] is not 0..nlabel-1" % tag)
+    undefined = 0
+
+    def bad(name, j, x, e, tol, what):
+        problems.append("%s[%s][%d] = %r, exact value %r (%s)" % (tag, name, j, float(x), e, what))
+
+    got = {k: np.asarray(pkm[k], float) for k in pkm if k != "spot3d_id"}
+    for j in range(nlabel):
+        if len(problems) >= 5:
+            break
+        for name, r in (("Number_of_pixels", 0), ("sum_intensity", 1), ("npk2d", 6)):
+            e = num[r][j] / den[r]                  # int / int: correctly rounded
+            x = got[name][j]
+            if not abs(x - e) <= TOL_REL * abs(e) + TOL_ABS:
+                bad(name, j, x, e, 0, "sum over the members")
+        if num[1][j] == 0:
+            undefined += 1
+            continue
+        w = num[1][j] / den[1]
+        for name, r in (("s_raw", 2), ("f_raw", 3), ("omega", 4), ("dty", 5)):
+            fr = Fraction(num[r][j] * den[1], num[1][j] * den[r])
+            e = float(fr)
+            mag = (absn[r][j] / den[r]) / w
+            x = got[name][j]
+            if not abs(x - e) <= TOL_REL * (mag + abs(e)) + TOL_ABS:
+                bad(name, j, x, e, 0, "intensity-weighted mean, exact rational %d/%d" % (fr.numerator, fr.denominator)
+                    if fr.denominator < 10 ** 12 else "intensity-weighted mean")
+    if stats is not None:
+        stats["merged_peaks_with_zero_weight_not_judged_for_means"] = \
+            stats.get("merged_peaks_with_zero_weight_not_judged_for_means", 0) + undefined
+    return problems
+
+
+def judge_pk2d_f(table, glabel, scaled, pk):
+    """per 2D peak, one rounding each: |x - e| <= 1e-9 |e| + 1e-12 elementwise"""
+    s1, sI, srI, scI, frm = [table.props[k] for k in range(5)]
+    assert int(np.abs(table.props[:4]).max(initial=0)) < 2 ** 53
+    problems = []
+
+    def cmpf(name, got, expf):
+        got = np.asarray(got, float)
+        if got.shape != expf.shape:
+            problems.append("pk2d[%s] shape %s" % (name, got.shape))
+            return
+        bad = ~(np.abs(got - expf) <= TOL_REL * np.abs(expf) + TOL_ABS)
+        if bad.any():
+            k = int(np.argmax(bad))
+            problems.append("pk2d(%s)[%s][%d] = %r, expected %r" % ("scaled" if scaled else "unscaled",
+                                                                   name, k, float(got[k]), float(expf[k])))
+    cmpf("s_raw", pk["s_raw"], srI / sI.astype(float))
+    cmpf("f_raw", pk["f_raw"], scI / sI.astype(float))
+    cmpf("omega", pk["omega"], table.flat64("om")[frm])
+    cmpf("dty", pk["dty"], table.flat64("dty")[frm])
+    cmpf("Number_of_pixels", pk["Number_of_pixels"], s1.astype(float))
+    if scaled:
+        sh = 1 << table.sc_s
+        cmpf("sum_intensity", pk["sum_intensity"],
+             np.array([(int(a) * table.sc_i[int(f)]) / sh for a, f in zip(sI, frm)], float))
+    else:
+        cmpf("sum_intensity", pk["sum_intensity"], sI.astype(float))
+    if not np.array_equal(np.asarray(pk["spot3d_id"]), np.asarray(glabel)):
+        problems.append("pk2d spot3d_id is not the merged-peak label of each 2D peak")
+    return problems
+
+
+LAYOUTS = ("C64", "mixA", "mixB")
+
+
+def _layout(a, how):
+    """the same values in another dtype / memory layout (values rounded to float32 first when asked)"""
+    if how == "C":
+        return np.ascontiguousarray(a, np.float64)
+    if how == "F":
+        return np.asfortranarray(np.asarray(a, np.float64))
+    if how == "f32":
+        return np.ascontiguousarray(a, np.float32)
+    if how == "F32":
+        return np.asfortranarray(np.asarray(a, np.float32))
+    if how == "strided":                       # every second column of a wider array: neither C nor F contiguous
+        big = np.full((a.shape[0], 2 * a.shape[1]), 12345.678)
+        big[:, ::2] = a
+        return big[:, ::2]
+    raise ValueError(how)
+
+
+def make_vtable(kind, n, seed, root, layout="C64", shape=(13, 17)):
+    """value classes of the property table (all finite, scale >= 0):
+       wide    sI up to 1e9, s1 up to 1e5, scale factors 10**U(-6, 3), omega U(-180, 360), dty U(-5, 5)
+       monitor scale = monitor_ref / monitor, monitor U(1e3, 1e9), monitor_ref = mean (non-dyadic quotients)
+       zero    as wide with scale = 0 on about half of the frames; every fourth component (by its
+               minimum) has ALL members on zero-scale frames (total weight 0: means undefined)
+    layout: C64 = C-contiguous float64; mixA = omega Fortran-ordered float64, dty float32, scale strided;
+            mixB = omega Fortran-ordered float32, dty strided float64, scale Fortran-ordered float64"""
+    rng = np.random.default_rng([int(seed), int(n), 4242, ("wide", "monitor", "zero").index(kind)])
+    nf = shape[0] * shape[1]
+    s1 = rng.integers(1, 100001, n)
+    sI = np.maximum(1, (10 ** rng.uniform(0, 9, n)).astype(np.int64))
+    srI = sI * rng.integers(0, 2048, n) + rng.integers(0, 50, n)
+    scI = sI * rng.integers(0, 2048, n) + rng.integers(0, 50, n)
+    frm = rng.integers(0, nf, n)
+    om = rng.uniform(-180, 360, shape)
+    dt = rng.uniform(-5, 5, shape)
+    monitor = None
+    if kind == "monitor":
+        mon = rng.uniform(1e3, 1e9, shape)
+        ref = float(np.mean(mon))
+        sc = ref / mon
+        monitor = (mon, ref)
+    else:
+        sc = 10 ** rng.uniform(-6, 3, shape)
+    if kind == "zero":
+        zf = rng.random(nf) < 0.5
+        zf[0], zf[1] = True, False
+        sc = np.where(zf.reshape(shape), 0.0, sc)
+        zframes = np.nonzero(zf)[0]
+        root = np.asarray(root)
+        roots = np.nonzero(root == np.arange(n))[0]
+        dead = roots[::4]
+        isdead = np.zeros(n, bool)
+        isdead[dead] = True
+        m = isdead[root]
+        frm[m] = zframes[rng.integers(0, len(zframes), int(m.sum()))]
+    if n:
+        frm[int(rng.integers(0, n))] = nf - 1
+    how = {"C64": ("C", "C", "C"), "mixA": ("F", "f32", "strided"), "mixB": ("F32", "strided", "F")}[layout]
+    if kind == "monitor" and layout != "C64":
+        raise ValueError("the monitor class is built C-contiguous (the dataset derives scale itself)")
+    props = np.array([s1, sI, srI, scI, frm], np.int64)
+    return FTable(props, _layout(om, how[0]), _layout(dt, how[1]), _layout(sc, how[2]),
+                  kind="%s/%s" % (kind, layout), monitor=monitor)
 
 
 # ----------------------------------------------------------------------------------
@@ -311,7 +554,32 @@ def fam_sinogram(rng, n):
     return n, np.ascontiguousarray(a, np.int64), np.ascontiguousarray(b, np.int64)
 
 
+def fam_merge_race(rng, n):
+    """a few big stars whose members are interleaved in storage order (peak k belongs to star k % S):
+    every contiguous slice of the 2D peak table holds members of every merged peak, so a merge loop
+    that is split over threads has all threads updating the same few accumulators"""
+    S = int(rng.integers(3, 7))
+    k = np.arange(S, n)
+    return (n,) + _orient_shuffle(rng, k, k % S)
+
+
+def fam_vclass(rng, n):
+    """6 interleaved stars on the first 3/4 of the peaks (>= 1000 members each for n >= 8000), chains of
+    about 8 peaks on the next ~1/5, the rest isolated"""
+    S = 6
+    a = (3 * n) // 4
+    b = a + n // 5
+    k = np.arange(S, a)
+    p = a + rng.permutation(b - a)
+    keep = (np.arange(len(p) - 1) % 8) != 7
+    ea = np.concatenate([k, p[:-1][keep]])
+    eb = np.concatenate([k % S, p[1:][keep]])
+    return (n,) + _orient_shuffle(rng, ea, eb)
+
+
 FAMILIES = {
+    "merge_race": fam_merge_race,
+    "vclass": fam_vclass,
     "chain_random": fam_chain_random,
     "chain_ordered": fam_chain_ordered,
     "chain_forest": fam_chain_forest,
@@ -323,8 +591,13 @@ FAMILIES = {
 }
 
 
+# stream index of a family (fixed: adding a family must not change the instances of the others)
+FAMILY_INDEX = ["chain_forest", "chain_ordered", "chain_random", "dups_loops", "no_edges", "random_sparse",
+                "sinogram", "star", "merge_race", "vclass"]
+
+
 def make_instance(family, n, seed):
-    rng = np.random.default_rng([int(seed), int(n), sorted(FAMILIES).index(family)])
+    rng = np.random.default_rng([int(seed), int(n), FAMILY_INDEX.index(family)])
     n, ei, ej = FAMILIES[family](rng, int(n))
     return int(n), np.ascontiguousarray(ei, np.int64), np.ascontiguousarray(ej, np.int64)
 
@@ -353,6 +626,20 @@ def table_from_record(rec):
     nf = len(rec["omega"])
     return Table(np.array(rec["props"], np.int64).reshape(5, rec["n"]), (1, nf),
                  rec["omega"], 1, rec["dty"], 1, rec["scalenum"], rec["scaleden"])
+
+
+def split_scans(n, ne, seed, nscans=None):
+    """the npk array [nscans, (peaks in scan, pairs within the scan, pairs to the previous scan)] of a
+    table of n peaks and ne overlap pairs cut into scans at arbitrary places (empty scans allowed),
+    as properties.compute_storage hands it to pks_table(npk)"""
+    rng = np.random.default_rng([int(seed), int(n), int(ne), 31])
+    ns = int(nscans or rng.integers(1, 5))
+    cp = np.sort(rng.integers(0, n + 1, ns - 1))
+    pk = np.diff(np.concatenate([[0], cp, [n]]))
+    ce = np.sort(rng.integers(0, ne + 1, ns - 1))
+    pe = np.diff(np.concatenate([[0], ce, [ne]]))
+    nii = np.array([int(rng.integers(0, x + 1)) for x in pe], np.int64)
+    return np.array([pk, nii, pe - nii], np.int64).T.copy()
 
 
 def union_of_records(recs, interleave):
